@@ -47,7 +47,7 @@ fn main() {
   let ctx = Ctx::parse(&prop, &args[2..]);
   let mut rep = Report::new(&prop);
   match prop.as_str() {
-    "C01" | "C02" | "C17" => props::chain::run(&ctx, &mut rep),
+    p if props::chain_driver::CHAIN_PROPS.contains(&p) => props::chain::run(&ctx, &mut rep),
     "C25" => props::c25::run(&ctx, &mut rep),
     "C26" => props::c26::run(&ctx, &mut rep),
     "C29" | "C30" => props::c29::run(&ctx, &mut rep, &prop),
